@@ -6,11 +6,14 @@ from .rules import Report
 def run_C01(rep, g):
     F = rules.check_ctor(rep, g)
     rules.check_into_inner(rep, g)
+    rules.check_hygiene(rep, g)
     return F
 
 
 def run_C03(rep, g):
     rules.check_conversions(rep, g)
+    if g.d.get('default') is not None:
+        rules.check_hygiene(rep, g)   # the default expression is spliced into a generated body
 
 
 def run_C04(rep, g):
